@@ -58,3 +58,20 @@ def mutate(rng, doc, k=None):
     for _ in range(k or rng.randrange(1, 4)):
         doc = mutate_once(rng, doc)
     return doc
+
+
+def with_tails(doc, prefix='t'):
+    """The same document as mixed content: every element below the root gets its own tail text
+    (what pretty-printing or mixed text leaves there), so that a lost, moved or copied tail shows."""
+    doc = copy.deepcopy(doc)
+    n = [0]
+
+    def go(t, top):
+        for c in t[4]:
+            go(c, False)
+        if not top:
+            n[0] += 1
+            t[3] = f' {prefix}{n[0]} '
+
+    go(doc, True)
+    return doc
